@@ -13,8 +13,8 @@ VERIF = os.path.dirname(HERE)
 sys.path.insert(0, VERIF)
 import check as C  # noqa: E402
 
-EVID = os.path.join(VERIF, 'evidence')
-REPLAYS = os.path.join(VERIF, 'replays')
+EVID = os.environ.get('VERIF_EVIDENCE_DIR', os.path.join(VERIF, 'evidence'))
+REPLAYS = os.environ.get('VERIF_REPLAY_DIR', os.path.join(VERIF, 'replays'))
 KNOWN = os.path.join(VERIF, 'known_findings.json')
 
 
